@@ -34,6 +34,7 @@ fn fmt_two_bytes(w: &mut dyn std::io::Write, _now: &mut DeferredNow, _r: &Record
 #[kani::proof]
 #[kani::unwind(8)]
 #[kani::stub(verif_support::reexp::catch_unwind, verif_support::stub_cu)]
+#[kani::stub(crate::parameters::file_spec::TimestampCfg::get_timestamp, crate::parameters::file_spec::verif_harness::cut_get_timestamp)]
 #[kani::stub(crate::writers::file_log_writer::state::State::write_buffer, rec_write_buffer)]
 #[kani::stub(crate::writers::file_log_writer::state::start_sync_flusher, cut_start_sync_flusher)]
 #[kani::stub(crate::util::eprint_err, stub_eprint_err)]
@@ -94,6 +95,7 @@ fn fmt_recursive(w: &mut dyn std::io::Write, now: &mut DeferredNow, r: &Record) 
 #[kani::proof]
 #[kani::unwind(8)]
 #[kani::stub(verif_support::reexp::catch_unwind, verif_support::stub_cu)]
+#[kani::stub(crate::parameters::file_spec::TimestampCfg::get_timestamp, crate::parameters::file_spec::verif_harness::cut_get_timestamp)]
 #[kani::stub(crate::writers::file_log_writer::state::State::write_buffer, rec_write_buffer)]
 #[kani::stub(crate::writers::file_log_writer::state::start_sync_flusher, cut_start_sync_flusher)]
 #[kani::stub(crate::util::eprint_err, stub_eprint_err)]
@@ -150,6 +152,7 @@ macro_rules! sh_harness {
         #[kani::proof]
         #[kani::unwind($u)]
         #[kani::stub(verif_support::reexp::catch_unwind, verif_support::stub_cu)]
+        #[kani::stub(crate::parameters::file_spec::TimestampCfg::get_timestamp, crate::parameters::file_spec::verif_harness::cut_get_timestamp)]
         #[kani::stub(crate::writers::file_log_writer::state::State::write_buffer, rec_write_buffer)]
         #[kani::stub(crate::writers::file_log_writer::state::State::mount_next_linewriter_if_necessary, rec_mount_next)]
         #[kani::stub(crate::writers::file_log_writer::state::State::reopen_outputfile, rec_reopen)]
@@ -276,6 +279,7 @@ fn basename_first_byte(h: &StateHandle) -> u8 {
 #[kani::proof]
 #[kani::unwind(8)]
 #[kani::stub(verif_support::reexp::catch_unwind, verif_support::stub_cu)]
+#[kani::stub(crate::parameters::file_spec::TimestampCfg::get_timestamp, crate::parameters::file_spec::verif_harness::cut_get_timestamp)]
 #[kani::stub(crate::writers::file_log_writer::state::start_sync_flusher, cut_start_sync_flusher)]
 #[kani::stub(crate::util::eprint_err, stub_eprint_err)]
 #[kani::stub(crate::writers::FileLogWriterBuilder::try_build_state, stub_try_build_state)]
